@@ -1204,6 +1204,22 @@ def ack_profile(variant):
             p.op("store", [AR, INT, INT], AR, lambda m, a, i, v: m.Store(a, i, v))
             p.op("select", [AR, INT], INT, lambda m, a, i: m.Select(a, i))
             p.op("eq", [INT, INT], BOOL, EQ)
+        elif variant == "arrfin":
+            # a function over arrays with a finite index sort, applied to literals that are different nodes but the
+            # same array (K(1) and K(0)[0:=1][1:=1]): atoms over the applications, Boolean structure above
+            AR = ("Array", B1, INT)
+            it = mk_type(env, B1)
+            h = p.sym("h", ("Fun", INT, (AR,)))
+            arr = p.sym("A", AR)
+            z, o = m.BV(0, 1), m.BV(1, 1)
+            L1 = m.Array(it, one)
+            L2 = m.Array(it, m.Int(0), {z: one, o: one})
+            L3 = m.Array(it, m.Int(0), {z: one})
+            H = lambda t: m.Function(h, [t])
+            atoms = [EQ(m, H(L1), x), EQ(m, H(L2), x), EQ(m, H(L3), x), EQ(m, H(arr), x), EQ(m, H(L1), H(L2)),
+                     EQ(m, H(m.Store(arr, z, one)), y), EQ(m, arr, L2)]
+            p.leaf(BOOL, *atoms)
+            _bool_ops(p, tern=False)
         elif variant == "bv":
             # finite sorts: every assignment of the fresh constants is enumerated exactly
             u, v = p.sym("u", B1), p.sym("v", B1)
@@ -1298,6 +1314,7 @@ def parts(ctx):
         top_ops=_names("eq"), max_new=1)
     if not q:
         ack("ack-arr-lit-d4", "arr", 4, 64, mid_ops=_names("f", "lit", "select"), top_ops=_names("eq"), max_new=1)
+    ack("ack-arrfin-d2", "arrfin", 2, 16, mid_ops=_names("not"), top_ops=_names("and", "or", "implies", "iff", "not"))
     ack("ack-bv-d3", "bv", 4, 16, mid_ops=_names("fb", "bvnot"), top_ops=_names("bveq", "qb"))
     return ps
 
